@@ -21,7 +21,8 @@ CASE_TIMEOUT = {'quick': 20, 'thorough': 120}
 def floors(tier):
     return {'distinct_nontrivial': 1500 if tier == 'quick' else 80000, 'generic_sw': 500, 'generic_proj': 500,
             'generic_normsq': 200, 'own_composition_compared': 1200, 'blades_dropped_by_presimplification': 200,
-            'cse_false_cases': 100, 'graded_mode_cases': 100, 'reflected_entry_point_cases': 100}
+            'cse_false_cases': 100, 'graded_mode_cases': 100, 'reflected_entry_point_cases': 100,
+            'grade_ge_6_operand_cases': 30, 'sibling_algebra_cases': 60}
 
 
 def plan(tier, seed):
@@ -57,6 +58,11 @@ def plan(tier, seed):
         for c in ({'p': 3, 'q': 0, 'r': 0}, {'p': 2, 'q': 0, 'r': 1}, {'p': 2, 'q': 1, 'r': 0}, {'p': 3, 'q': 0, 'r': 1}):
             U += u(dict(c, opts={'simp_func': 'none'}), 'gradeblocks', 1, count=25, cap=4)
             U += u(dict(c, opts={'simp_func': 'none'}), 'sparse', 1, count=25, cap=3)
+        # grades 4..7 (the involution signs repeat with period 4: grade 6, 7 behave like 2, 3) - few blades, d = 6 and 7
+        for c in ({'p': 6, 'q': 0, 'r': 0}, {'p': 4, 'q': 1, 'r': 1}, {'p': 7, 'q': 0, 'r': 0}, {'signature': gen.random_sig(rng, 7)}):
+            U += u(c, 'highgrade', 1, count=10, cap=3)
+        # algebras with equal (p, q, r) and different sign tables side by side in one process, on the same key patterns
+        U += workload.sibling_units(gen.sibling_sets(rng, (2, 3, 4), 1), 'sparse', count=8, cap=3)
         nshards = 16
     else:
         for c in gen.sig_orderings(1, 1):
@@ -82,6 +88,9 @@ def plan(tier, seed):
         for c in gen.pqr_all(2, 3) + rng.sample(gen.pqr_all(4, 4), 4):
             U += u(dict(c, opts={'simp_func': 'none'}), 'gradeblocks', 1, count=40, cap=4)
             U += u(dict(c, opts={'simp_func': 'none'}), 'sparse', 1, count=60, cap=3)
+        for c in gen.pqr_all(6, 6)[::3] + gen.pqr_all(7, 7)[::5] + [{'signature': gen.random_sig(rng, 7)} for _ in range(4)] + [{'p': 8, 'q': 0, 'r': 0}]:
+            U += u(c, 'highgrade', 1, count=12, cap=3)
+        U += workload.sibling_units(gen.sibling_sets(rng, (2, 3, 3, 4), 5), 'sparse', count=20, cap=3)
         nshards = 64
     rng.shuffle(U)
     return [{'units': part} for part in gen.split(U, nshards)]
@@ -90,27 +99,20 @@ def plan(tier, seed):
 def run_shard(shard, ctx):
     algs = {}
     to = CASE_TIMEOUT[ctx.tier]
-    for unit in shard['units']:
-        cfg = unit['cfg']
-        name = gen.cfg_str(cfg)
-        if name not in algs:
-            alg = gen.make_or_skip(ctx, cfg)
-            if alg is None:
-                continue
-            algs[name] = (alg, Iso(alg))
-            ctx.count('algebras')
-        alg, iso = algs[name]
-        for kx, ky in workload.iter_patterns(unit, alg, ctx.rng):
+    for unit, cfg, name, alg, iso, (kx, ky) in workload.iter_cases(shard, ctx, algs, Iso):
+        if True:
             if ctx.out_of_time():
                 ctx.count('patterns_skipped_out_of_time')
                 break
+            if unit['fam'] == 'highgrade' and alg.d >= 6:
+                ctx.count('grade_ge_6_operand_cases')
             a, b = ops.generic_mv(alg, kx, 'a'), ops.generic_mv(alg, ky, 'b')
             for op in ('sw', 'proj', 'normsq'):
                 keysets = (kx,) if op == 'normsq' else (kx, ky)
                 cid = [name, op] + [list(k) for k in keysets]
                 if not ctx.want(cid):
                     continue
-                if op == 'normsq' and ctx.rng.random() < 0.5:
+                if op == 'normsq' and ctx.rng.random() < 0.5 and not (unit['fam'] == 'highgrade' and alg.d >= 6):
                     continue
                 st, r = ops.check_generic(ctx, alg, iso, cfg, op, keysets, cid, timeout=to)
                 if st in ('timeout', 'raised'):
